@@ -457,7 +457,7 @@ var _ = reflect.TypeOf
 func init() {
 	mc.Register(&mc.Check{
 		Prop:   "C17",
-		Rule:   "every sequence to depth 3 (quick) / 4 (thorough) over a 25-operation alphabet {Add{Singleton,Scoped,Transient} of 19 forms (incl. registrations rejected for a reserved type found at a later output of a grouped batch) (incl. registrations that collide with themselves) over a 6-type pool (plain, keyed, grouped, two-return colliding / not colliding, result objects colliding at their second field, aliases, instance values, invalid option combinations), Remove x3, RemoveKeyed x2, AddModules}; after every step Contains / ContainsKeyed / Count / ToSlice are compared with the reference registry and a rejected call must leave the deep dump of the collection unchanged; in every state the collection is Built (Build must not change the dump), no constructor of a removed / rejected registration may have run, the whole identity universe is probed against the model, then one of 6 further mutations is applied to the collection and the SAME provider must answer identically. plus every sequence to depth 5 (6) over the reduced alphabet {Add plain / grouped / keyed P0, Add P1, Remove(P0), Remove(P1), RemoveKeyed(P0,k)} (group members registered around removals). distinct = distinct first operations x depth (states counted separately).",
+		Rule:   "every sequence to depth 3 (quick) / 4 (thorough) over a 25-operation alphabet {Add{Singleton,Scoped,Transient} of 19 forms (incl. registrations rejected for a reserved type found at a later output of a grouped batch) (incl. registrations that collide with themselves) over a 6-type pool (plain, keyed, grouped, two-return colliding / not colliding, result objects colliding at their second field, aliases, instance values, invalid option combinations), Remove x3, RemoveKeyed x2, AddModules}; after every step Contains / ContainsKeyed / Count / ToSlice are compared with the reference registry and a rejected call must leave the deep dump of the collection unchanged; in every state the collection is Built (Build must not change the dump), no constructor of a removed / rejected registration may have run, the whole identity universe is probed against the model, then one of 6 further mutations is applied to the collection and the SAME provider must answer identically. plus every sequence to depth 5 (6) over the reduced alphabet {Add plain / grouped / keyed P0, Add P1, Remove(P0), Remove(P1), RemoveKeyed(P0,k)} (group members registered around removals), and over {instance registration of a non-pointer value plain / keyed / grouped / rejected, Remove, RemoveKeyed} to depth 4 (5). distinct = distinct first operations x depth (states counted separately).",
 		Assume: []string{"Count/ToSlice count one entry per registered identity (a two-return constructor contributes two)", "the analyzer cache and the mutex are excluded from the dump (not observable)"},
 		Jobs: func(tier string) []mc.Job {
 			depth := 3
